@@ -126,7 +126,9 @@ static T mc_lattice(std::vector<int> const& ks, std::vector<T> const& weights, T
         T y = p.coordinates()[0];
         return f == f_one ? T(1) : (f == f_x0 ? y : (y < T(0.25) ? T(1) : T()));
     };
-    auto chk = hep::make_multi_channel_chkpt<T, script_engine>(weights, minw, beta, lattice(std::vector<std::size_t>{Mu, Ms}, true));
+    // (no weights given: the default, uniform weights of a checkpoint that is only told the number of channels)
+    auto chk = weights.empty() ? hep::make_multi_channel_chkpt<T, script_engine>(minw, beta, lattice(std::vector<std::size_t>{Mu, Ms}, true))
+                               : hep::make_multi_channel_chkpt<T, script_engine>(weights, minw, beta, lattice(std::vector<std::size_t>{Mu, Ms}, true));
     using C = decltype(chk);
     chk.channels(n);
     if (used) *used = chk.channel_weights();
@@ -163,12 +165,15 @@ static void mc_cases(rng& g, bool thorough)
     // made of them; they are multiples of 1/11, 1/4, 1/21, so a symmetric lattice of M = lcm(24, denominator) points per number
     // has no selector point on a cumulative boundary and the integral must be right to rounding
     struct fam { double w[3]; double minw; std::size_t M; };
-    static fam const fams[4] = {{{0.9, 0.05, 0.05}, 0.1, 264}, {{2, 1, 1}, 0.0, 24}, {{0.95, 0.05, 0.0}, 0.1, 168}, {{0.05, 0.05, 0.9}, 0.1, 264}};
-    for (int k = 0; k != (thorough ? 24 : 8); ++k)
+    // (the last two: default weights with a minimum weight below and above 1 / channels - the uniform start is not touched by it)
+    static fam const fams[6] = {{{0.9, 0.05, 0.05}, 0.1, 264}, {{2, 1, 1}, 0.0, 24}, {{0.95, 0.05, 0.0}, 0.1, 168}, {{0.05, 0.05, 0.9}, 0.1, 264},
+        {{0, 0, 0}, 0.1, 24}, {{0, 0, 0}, 0.4, 24}};
+    for (int k = 0; k != (thorough ? 24 : 12); ++k)
     {
-        fam const& fm = fams[k % 4];
+        fam const& fm = fams[k % 6];
         std::vector<int> ks{1 + (int) g.below(3), 1 + (int) g.below(3), 1 + (int) g.below(3)};
         std::vector<T> w{T(fm.w[0]), T(fm.w[1]), T(fm.w[2])};
+        if (fm.w[0] + fm.w[1] + fm.w[2] == 0) w.clear();
         for (int f = 0; f != 3; ++f)
         {
             int ff = f == 2 ? f_ind : f;
